@@ -41,6 +41,11 @@ def body_fixed(rnd, kind):
     if kind == "fe_guard":
         return [FE("l", "i", [{"k": "if", "arms": [{"c": B("eq", IT("i"), F("k")), "body": [E(B("ne", F("a"), lit(0)))]}],
                                "els": [E(B("le", IT("i"), F("a")))]}])]
+    if kind == "fe_tbl":
+        # the condition reads a NON-RANDOM list at the foreach index: a different element for every iteration
+        c1, c2 = rnd.sample(range(4), 2)
+        return [FE("l", "i", [{"k": "if", "arms": [{"c": B(rnd.choice(["eq", "ge"]), SUB("nl", IX("i")), F("k")), "body": [E(B("eq", SUB("l", IX("i")), lit(c1)))]}],
+                               "els": [E(B("eq", SUB("l", IX("i")), lit(c2)))]}], it=False, idx=True)]
     if kind == "sum":
         return [E(B(rnd.choice(["eq", "le", "ge"]), {"k": "sum", "l": "l"}, rnd.choice([lit(rnd.randrange(7)), F("a")])))]
     if kind == "prod":
@@ -61,7 +66,7 @@ def body_fixed(rnd, kind):
     raise ValueError(kind)
 
 
-FIXED_KINDS = ["fe_it", "fe_idx", "fe_both", "fe_sorted", "fe_guard", "sum", "uniq", "uniq_mixed", "member", "index", "nl_member", "prod", "prod_fe"]
+FIXED_KINDS = ["fe_it", "fe_idx", "fe_both", "fe_sorted", "fe_guard", "sum", "uniq", "uniq_mixed", "member", "index", "nl_member", "prod", "prod_fe", "fe_tbl"]
 
 
 def family_fixed(tier, seed, n=None):
@@ -76,7 +81,7 @@ def family_fixed(tier, seed, n=None):
                 size = 3
             fields = [fld("a", 2, False), fld("k", 2, False, rand=False, init=rnd.randrange(4)),
                       list_field("l", 2, rnd.random() < 0.2 and kind not in ("sum",), init=[0] * size, cap=5),
-                      list_field("nl", 2, False, rand=False, init=[1, 2], cap=5)]
+                      list_field("nl", 2, False, rand=False, init=[1, 2] if kind != "fe_tbl" else [rnd.randrange(4) for _ in range(4)], cap=5)]
             body = body_fixed(rnd, kind)
             if rnd.random() < 0.4:
                 body.append(E(B("ne", F("a"), F("k"))))
@@ -145,7 +150,8 @@ def witness_sum_reassign():
 def family_randsz(tier, seed, n=None):
     """random-size lists: the size is always bounded by a top-level constraint (otherwise an open zone)"""
     out = []
-    kinds = ["size_only", "fe_it", "fe_idx", "sum_fixed", "uniq", "coupled", "edit_after", "rs_sum", "rs_member"]
+    kinds = ["size_only", "fe_it", "fe_idx", "sum_fixed", "uniq", "coupled", "edit_after", "rs_sum", "rs_member",
+             "rs_sum_sizelast", "rs_member_sizeblock", "rs_prod"]
     per = 2 if tier == "quick" else 20
     for kind in kinds:
         for t in range(per):
@@ -154,8 +160,10 @@ def family_randsz(tier, seed, n=None):
             hi = rnd.choice([1, 2, 3])
             lo = rnd.choice([0, 0, 1]) if hi > 0 else 0
             w = rnd.choice([1, 2])
-            if kind == "rs_member":
+            if kind in ("rs_member", "rs_member_sizeblock", "rs_prod"):
                 lo = max(lo, 1)           # (an element constraint that excludes size 0: see C04-size-solved-before-elements)
+            if kind == "rs_prod":
+                w, hi = 2, 3
             if kind == "uniq":
                 # quarantine of known finding C04-size-solved-before-elements: the element constraints of the generated
                 # programs are satisfiable for every admissible size (witness: L/randsz/witness/uniq)
@@ -177,13 +185,24 @@ def family_randsz(tier, seed, n=None):
                 body.append(E(B(rnd.choice(["le", "ge"]), {"k": "sum", "l": "l"}, F("a"))))
             elif kind == "rs_member":
                 body.append(E({"k": "in", "e": F("a"), "items": [{"k": "l", "p": "l"}], "neg": False}))
-            world = {"classes": {"A": {"base": "", "fields": fields, "blocks": [{"name": "c1", "dynamic": False, "body": body}]}},
+            elif kind == "rs_sum_sizelast":
+                # the element constraint is DECLARED BEFORE the size constraint (same block)
+                body.insert(0, E(B(rnd.choice(["le", "ge", "eq"]), {"k": "sum", "l": "l"}, F("a"))))
+            elif kind == "rs_prod":
+                body.append(E(B(rnd.choice(["eq", "eq", "le"]), {"k": "prod", "l": "l"}, lit(rnd.choice([2, 3])))))      # (met by every admitted size: quarantine of C04-size-solved-before-elements)
+            blocks = [{"name": "c1", "dynamic": False, "body": body}]
+            if kind == "rs_member_sizeblock":
+                # ... or in a block declared after the block with the element constraints
+                blocks = [{"name": "c0", "dynamic": False, "body": [E({"k": "in", "e": F("a"), "items": [{"k": "l", "p": "l"}], "neg": False}),
+                                                                     E(B("ge", {"k": "sum", "l": "l"}, F("a")))]},
+                          {"name": "c1", "dynamic": False, "body": body}]
+            world = {"classes": {"A": {"base": "", "fields": fields, "blocks": blocks}},
                      "population": [{"id": "o1", "cls": "A"}]}
             ops = [{"op": "construct", "o": "o1"}]
             for _ in range(4):
                 ops.append({"op": "call", "call": mcall()})
             # every size: satisfiable exactly when the constraints admit it
-            for nsz in range(0, 4):
+            for nsz in (range(0, 4) if kind != "rs_prod" else (3, 1, 2, 0, 3, 2)):
                 ops.append({"op": "call", "call": wcall([E(B("eq", {"k": "size", "l": "l"}, lit(nsz)))])})
             if kind == "edit_after":
                 ops.append({"op": "call", "call": mcall()})
@@ -213,6 +232,8 @@ def family_objlist(tier, seed, n=None):
         rnd = random.Random((424 if core else 4300 + seed) * 100003 + t)
         sub = {"base": "", "fields": [fld("x", 2, False), fld("z", 2, False, rand=False, init=rnd.randrange(4))],
                "blocks": [{"name": "sc", "dynamic": False, "body": [E(B("ne", F("x"), F("z")))]}]}
+        if t % 3 == 2:
+            sub["fields"].append(fld("y", 2, False))
         nobj = rnd.choice([1, 2, 3])
         top = {"base": "", "fields": [fld("a", 2, False), {"name": "ol", "kind": "objlist", "cls": "Sub", "n": nobj, "rand": rnd.random() < 0.8}],
                "blocks": [{"name": "c1", "dynamic": False,
@@ -220,8 +241,12 @@ def family_objlist(tier, seed, n=None):
                                     FE("ol", "j", [{"k": "imp", "c": B("gt", IX("j"), lit(0)),
                                                     "body": [E(B(rnd.choice(["lt", "le", "ne"]), SUB("ol", B("sub", IX("j"), lit(1)), "x"),
                                                                  SUB("ol", IX("j"), "x")))]}], it=False, idx=True)]}]}
+        if t % 3 == 2:
+            # unique over two fields of EACH element, stated once inside a foreach
+            top["blocks"][0]["body"].append(FE("ol", "u", [{"k": "uniq", "args": [SUB("ol", IX("u"), "x"), SUB("ol", IX("u"), "y")]}], it=False, idx=True)
+                                            if t % 2 == 0 else FE("ol", "u", [{"k": "uniq", "args": [IT("u", "x"), IT("u", "y")]}]))
         world = {"classes": {"Sub": sub, "Top": top}, "population": [{"id": "o1", "cls": "Top"}]}
-        paths = ["o1.a"] + ["o1.ol[%d].x" % i for i in range(nobj)]
+        paths = ["o1.a"] + ["o1.ol[%d].x" % i for i in range(nobj)] + (["o1.ol[%d].y" % i for i in range(nobj)] if t % 3 == 2 else [])
         ops = [{"op": "construct", "o": "o1"}, {"op": "call", "call": mcall()}, {"op": "probe", "call": wcall(), "paths": paths},
                {"op": "set", "p": "o1.ol[0].z", "v": bits(rnd.randrange(4), 2)}, {"op": "call", "call": mcall()},
                {"op": "probe", "call": wcall(), "paths": paths}]
